@@ -28,7 +28,7 @@ ValOf(j) ==
     [] j[1] = "dict" -> <<"dict", [i \in 1..Len(j[2]) |-> <<ValOf(j[2][i][1]), ValOf(j[2][i][2])>>]>>
     [] OTHER -> j
 ConfOf(d) ==
-  [ deco |-> d.deco, sel |-> d.sel, kind |-> d.kind, pos |-> d.pos, npd |-> d.npd, kwo |-> d.kwo, kwd |-> ToSet(d.kwd), va |-> d.va, vk |-> d.vk,
+  [ deco |-> d.deco, twin |-> d.twin, sel |-> d.sel, kind |-> d.kind, pos |-> d.pos, npd |-> d.npd, kwo |-> d.kwo, kwd |-> ToSet(d.kwd), va |-> d.va, vk |-> d.vk,
     dflt |-> { <<e[1], ValOf(e[2])>> : e \in ToSet(d.dflt) }, allow |-> ToSet(d.allow), deny |-> ToSet(d.deny),
     body |-> d.body, api |-> d.api ]
 TraceConfs == UNION { { ConfOf(d) : d \in ToSet(Traces[i].reg) } : i \in 1..Len(Traces) }
